@@ -24,3 +24,11 @@ W int w_split(const char* data, unsigned long len) {
   try { RecHandler h{data}; mp::internal::ReadNames("names", fmt::StringRef(data, len), h); return 0; }
   catch (const mp::ReadError&) { return 1; } catch (...) { return 2; }
 }
+// NameProvider::name() on a directly constructed state: names_ = line starts + end marker, as ReadNames leaves it
+template<class Tag, typename Tag::type M> struct Rob { friend typename Tag::type get(Tag) { return M; } };
+struct NamesTag { typedef std::vector<const char*> mp::NameProvider::*type; friend type get(NamesTag); };
+template struct Rob<NamesTag, &mp::NameProvider::names_>;
+W void* w_np_make(const char* buf, const unsigned* offs, unsigned n) {
+  try { auto* np = new mp::NameProvider("x", "y"); auto& v = np->*get(NamesTag()); v.reserve(n); for (unsigned i = 0; i < n; ++i) v.push_back(buf + offs[i]); return np; }
+  catch (...) { return 0; }
+}
